@@ -8,7 +8,9 @@ import (
 	"encoding/json"
 	"fmt"
 	"os"
+	"runtime/debug"
 	"sort"
+	"strconv"
 	"syscall"
 )
 
@@ -28,6 +30,13 @@ func main() {
 		fmt.Fprintln(os.Stderr, "usage: luadrv <subcommand> [args]; subcommands:", names)
 		os.Exit(2)
 	}
+	// A smaller maximum goroutine stack than Go's 1 GB default, so that unbounded recursion on the Go stack is
+	// reported (fatal "stack overflow") within seconds; it is far above what any bounded program needs.
+	maxStack := 512 << 20
+	if v, err := strconv.Atoi(os.Getenv("VERIF_MAXSTACK_MB")); err == nil && v > 0 {
+		maxStack = v << 20
+	}
+	debug.SetMaxStack(maxStack)
 	f, ok := subcmds[os.Args[1]]
 	if !ok {
 		fmt.Fprintln(os.Stderr, "unknown subcommand", os.Args[1])
